@@ -307,7 +307,7 @@ def body(draw, refs, known, profile: str, opts: dict, union: typing.Optional[boo
         attrs.insert(pos, draw(const_attr(used, profile)))
     sealed = draw(st.booleans())
     out = {"union": is_union, "sealed": sealed, "extent_extra": draw(st.sampled_from([0, 1, 7, 64])), "attrs": attrs}
-    if wide and not sealed:
+    if not sealed and (wide or body_max_bits(out, known) > 512):
         # an `_offset_` expression makes the front end expand the bit length set numerically (intractable for huge arrays):
         # wide bodies carry an explicit numeric extent instead
         out["extent_bits"] = ((body_max_bits(out, known) + 7) // 8 + out["extent_extra"]) * 8
